@@ -36,3 +36,11 @@ Definition run_obs_of (r : api_result cstate) : run_obs := (r_outs r, r_raised r
 Definition run_obs_eqb (a b : run_obs) : bool :=
   let '(o, r, ac, rj) := a in let '(o', r', ac', rj') := b in
   list_eqb out_eqb o o' && option_eqb err_eqb r r' && Nat.eqb ac ac' && Nat.eqb rj rj'.
+
+(* C08: outcome of one operation of a history *)
+From CP Require Import Model.History.
+Definition outcome_obs := (list out * option err * list (option err) * list (list text))%type.
+Definition outcome_obs_of (o : outcome) : outcome_obs := (oc_outs o, oc_raised o, oc_writes o, oc_emitted o).
+Definition outcome_obs_eqb (a b : outcome_obs) : bool :=
+  let '(o, r, w, e) := a in let '(o', r', w', e') := b in
+  list_eqb out_eqb o o' && option_eqb err_eqb r r' && list_eqb (option_eqb err_eqb) w w' && list_eqb (list_eqb text_eqb) e e'.
